@@ -149,10 +149,10 @@ func TestC17(t *testing.T) {
 	var creates, updates, fieldsChecked int64
 	paths := []string{"labels", "expiration_policy", "message_retention_duration", "enable_message_ordering", "retry_policy", "push_config", "filter", "dead_letter_policy"}
 	for i := 0; i < n; i++ {
-		if !cfg.Mine(i) {
+		seed := cfg.CaseSeed("C17", i)
+		if !cfg.Want(i, seed) {
 			continue
 		}
-		seed := cfg.CaseSeed("C17", i)
 		rig.RunCase(t, seed, rig.Opts{Tick: time.Microsecond}, func(e *rig.Env) {
 			r := e.Rand
 			T, DL, DL2 := "projects/p/topics/t", "projects/p/topics/dl", "projects/p/topics/dl2"
